@@ -334,7 +334,7 @@ func runProperty(id, tier, only string) int {
 		fatal("unknown property %s", id)
 	}
 	specs := ps.Quick
-	if tier == "thorough" && len(ps.Thorough) > 0 {
+	if tier == "thorough" {
 		// the deeper variants, plus every quick harness that has no deeper variant (run with the quick
 		// tier's solver settings: the second-solver cross-check is only affordable where it was measured)
 		specs = append([]HarnessSpec{}, ps.Thorough...)
